@@ -41,6 +41,7 @@ CASES = [
     ('zeros-with-inherited-dtype', 'g = numpy.asarray([i, j])\nm = numpy.zeros((2, 2), dtype=g.dtype)\nm[0] = g\nm[1] = [a, b]\nm[0][1] = a\nr = m[0].tolist() + m[1].tolist()',
      dict(i='int', j='posint', a='real', b='real')),
     ('zeros-default-float', 'm = numpy.zeros(2)\nm[0] = i\nm[1] = a\nr = [m[0] / 2, m[1]]', dict(i='int', a='real')),
+    ('generator-flatten', 'def fl(s, lev=0):\n    for it in s:\n        if isinstance(it, (list, tuple)) and lev < 2:\n            for sub in fl(it, lev + 1):\n                yield sub\n        else:\n            yield it\nr = list(fl([a, [b, (a, [b])], x])) [:3] + list(fl(x))', dict(x='list', a='real', b='real')),
     ('abs-tolerance', 'r = tol + abs(a) * rel', dict(a='real', tol='real', rel='real')),
 ]
 
